@@ -70,6 +70,11 @@ REQUESTS = [
     ("p", "F2", ("h", "-p", "80"), False, "str"),                    # command names omitted and re-inserted
     ("p", "F2", ("--", "server", "h"), True, "argv"),                # everything after '--' is a value, never a command name
     ("p", "F1", ("-f", "--", "--foo", "3"), False, "argv"),          # option-like tokens after '--' are arguments
+    # the very same raw-args object and format object, parsed leniently and strictly in any order
+    ("p", "F1", ("--foo", "x", "--nope", "1"), True, "same"),
+    ("p", "F1", ("--foo", "x", "--nope", "1"), False, "same"),
+    ("p", "F2", ("srv", "add", "h", "e", "surplus"), True, "same"),
+    ("p", "F2", ("srv", "add", "h", "e", "surplus"), False, "same"),
     ("c", "alpha", ("alpha", "--foo", "it"), None, "argv"),          # two commands sharing the parser via set_args_parser
     ("c", "beta", ("bt", "--foo", "w", "-m", "z"), None, "argv"),
     ("c", "beta", ("beta", "--nope"), None, "argv"),                 # beta's config enables lenient parsing
@@ -244,6 +249,7 @@ class State(object):
         self.parser = DefaultArgsParser()
         self.fmts, self.cmds, self.fmt_ids = w["fmts"], w["cmds"], w["fmt_ids"]
         self.earlier = []  # (request, Args|None, views|None, raw, raw_snapshot)
+        self.pool = {}  # token tuple -> (ArgvArgs, argv) re-used by raw kind "same"
 
     def bind(self, name):
         """Both commands share this state's parser: Config.set_args_parser(<the one instance>)."""
@@ -262,11 +268,20 @@ def _norm(op):
     return (op[0], op[1], tuple(op[2]), op[3], op[4])
 
 
-def make_raw(req):
+def make_raw(req, pool=None):
+    """raw kind "same": one ArgvArgs object per token list and history, handed to the parser again and
+    again (with the same format object) - what an application does when it parses its arguments leniently
+    first and strictly afterwards."""
     from clikit.args import ArgvArgs, StringArgs
     tokens = list(req[2])
     if req[4] == "str":
         return StringArgs(" ".join(tokens)), None
+    if req[4] == "same" and pool is not None:
+        k = tuple(tokens)
+        if k not in pool:
+            argv = ["prog"] + tokens
+            pool[k] = (ArgvArgs(argv), argv)
+        return pool[k]
     argv = ["prog"] + tokens
     return ArgvArgs(argv), argv
 
@@ -319,7 +334,7 @@ def step_light(st, op, table):
     has already been judged, as a shorter sequence, to give exactly the table's outcomes - so the views
     the result showed when it was returned are the table's)."""
     req = _norm(op)
-    raw, _argv = make_raw(req)
+    raw, _argv = make_raw(req, st.pool)
     args = None
     try:
         if req[0] == "c":
@@ -359,7 +374,7 @@ class Spec(object):
             n = fmt_ids.get(id(o))
             return ("format", n) if n else None
 
-        return canon([ps, retained], leaf)
+        return canon([ps, retained, sorted(st.pool)], leaf)
 
     def expected(self, req):
         k = _rkey(req)
@@ -383,11 +398,11 @@ class Spec(object):
         # wrapping an argv list must not alter it
         tokens_l = list(tokens)
         argv_before = ["prog"] + tokens_l
-        raw, argv = make_raw(req)
+        raw, argv = make_raw(req, st.pool)
         if argv is not None and argv != argv_before:
             return [report.viol("argv-altered:wrap", "ArgvArgs(argv) altered the caller's list", None, argv_before, argv)]
         raw_before = raw_snapshot(raw)
-        if rawkind == "argv" and (raw_before["tokens"] != tokens_l or raw_before["script_name"] != "prog"):
+        if rawkind in ("argv", "same") and (raw_before["tokens"] != tokens_l or raw_before["script_name"] != "prog"):
             return [report.viol("argv-wrap-tokens", "ArgvArgs(argv).tokens/script_name are not argv[1:]/argv[0]", None,
                                 [tokens_l, "prog"], raw_before)]
 
